@@ -91,7 +91,7 @@ DoInit(e) ==
             \cup F(\A i \in DOMAIN e.orgs : \A n \in AllInns(e.orgs) : Cardinality(KeysOf(e.orgs, n)) = 1, "C03:number with two meanings in the constructed population")
             \cup F(DisjointCells(e.orgs), "C06:two genomes of the constructed population share an object")
             \cup F(e.hasStart => \A i \in DOMAIN e.orgs : IsSpawnOf(e.orgs[i].g, e.start), "C06:spawned genome differs from the start genome in more than weights")
-            \cup F(e.hasStart => \A i \in DOMAIN e.orgs : Cells(e.orgs[i].g) \cap Cells(e.start) = {}, "C06:spawned genome shares an object with the start genome")
+            \cup F(e.hasStart => \A i \in DOMAIN e.orgs : (Cells(e.orgs[i].g) \cup Refs(e.orgs[i].g)) \cap Cells(e.start) = {}, "C06:spawned genome shares an object with the start genome")
             \cup F(e.reglen = 0, "conf:innovation record not empty after construction")
             \cup F(Partition(e.orgs, e.species) /\ NoEmptySpecies(e.species) /\ UniqueSpeciesIds(e.species), "conf:constructed population is not partitioned into species")
             \cup F(Len(e.orgs) = e.popsize \/ e.how = "ReadPopulation", "conf:constructed population size")
